@@ -59,19 +59,21 @@ def generate(ctx, name, cs, simulate=0, depth=600, workers=6, timeout=900):
                   stream=("REPLAY",), xss="64m")
 
 
-def replay(ctx, res, run, name, binary, db="state", insp="rec", reuse=1, facets=None, sdev=0, klass="evm"):
+def replay(ctx, res, run, name, binary, db="state", insp="rec", reuse=1, facets=None, sdev=0, klass="evm", respec="", preverify=0):
     """Execute the generated scenarios on revm and convert mismatches into violations.
     facets: None = every difference counts; else a list of path fragments a diff must contain."""
     f = run.files.get("REPLAY")
     if not f:
         raise vf.ToolError("vacuous: Evm.tla produced no behaviours for " + name)
-    outp = ctx.path("evm", "%s.%s.%s.%d.out.ndjson" % (name, db, insp, reuse))
-    vf.vh(binary, ["behaviours", f, outp, "db=" + db, "insp=" + insp, "reuse=%d" % reuse, "sdev=%d" % sdev])
+    outp = ctx.path("evm", "%s.%s.%s.%d%s%s.out.ndjson" % (name, db, insp, reuse, respec, "p" if preverify else ""))
+    extra = (["respec=" + respec] if respec else []) + (["preverify=1"] if preverify else [])
+    vf.vh(binary, ["behaviours", f, outp, "db=" + db, "insp=" + insp, "reuse=%d" % reuse, "sdev=%d" % sdev] + extra)
     lines = [json.loads(l) for l in open(outp) if l.strip()]
     summ = [l for l in lines if l.get("kind") == "summary"][-1]
     res.traces += summ["behaviours"]
     res.evaluations += summ["behaviours"]
-    res.engines.append({"engine": name, "db": db, "insp": insp, "reuse": reuse, "behaviours": summ["behaviours"],
+    res.engines.append({"engine": name, "db": db, "insp": insp, "reuse": reuse, "respec": respec, "preverify": preverify,
+                        "behaviours": summ["behaviours"],
                         "ok": summ["ok"], "mismatching": summ["root"], "panics": summ["panics"]})
     for m in lines:
         if m.get("kind") != "mismatch":
@@ -80,12 +82,13 @@ def replay(ctx, res, run, name, binary, db="state", insp="rec", reuse=1, facets=
         if facets is not None and not any(any(fr in d for fr in facets) for d in diff):
             continue
         sc = m["scenario"]
-        key = "%s|%s|%s|%s" % (klass, db, insp if insp != "rec" else "-", m["sig"])
+        key = "%s|%s|%s|%s" % (klass + (".respec" if respec else "") + (".preverify" if preverify else ""), db,
+                               insp if insp != "rec" else "-", m["sig"])
         what = ("%s: scenario #%d (fork %s, %d tx) differs at %s: expected %s, revm gave %s" % (
             name, m["idx"], FORKS[sc["fork"]], len(sc["txs"]), diff[:6],
             json.dumps(_at(m["exp"], diff[0]))[:300], json.dumps(_at(m["got"], diff[0]))[:300]))
         res.violation(key, what, {"engine": "evm", "mode": "behaviours", "behaviour": sc,
-                                  "vh_args": ["db=" + db, "insp=" + insp, "reuse=%d" % reuse],
+                                  "vh_args": ["db=" + db, "insp=" + insp, "reuse=%d" % reuse] + extra,
                                   "expected": m["exp"], "observed": m["got"], "diff": diff})
     return summ
 
@@ -305,6 +308,12 @@ def run(ctx, pid):
             replay(ctx, res, r, "c31_" + f, binary, reuse=1)
             replay(ctx, res, r, "c31_" + f, binary, reuse=0)
             replay(ctx, res, r, "c31_" + f, binary, reuse=1, insp="none")
+            # the same instance after a spec change: built for another hardfork (across the Cancun / Spurious Dragon
+            # rule changes), the first transaction executed under it without committing, then modify_spec_id(f);
+            # and with preverify_transaction() before every transact_commit()
+            other = {"CANCUN": "SHANGHAI", "PRAGUE": "LONDON", "SPURIOUS_DRAGON": "HOMESTEAD"}.get(f, "CANCUN")
+            replay(ctx, res, r, "c31_" + f, binary, reuse=1, respec=other)
+            replay(ctx, res, r, "c31_" + f, binary, reuse=1, preverify=1)
         # leak probes: transaction 1 writes transient storage / warms / logs, transaction 2 reads
         for f in rot(["CANCUN", "PRAGUE", "BERLIN"], 1 if q else 3):
             r = planned("c31leak_" + f, f, [193, 194], [(193, ["probe", "tstore"]), (194, ["tstore"])],
